@@ -1,5 +1,6 @@
 import N0Verif.Proofs.XPathLeaves
 import N0Verif.Proofs.XPathListRoot
+import N0Verif.Proofs.XPathSpellings
 /-!
 # C01 — every enumerated xpath resolves to exactly the leaf it names
 
@@ -223,6 +224,49 @@ theorem C01_list_root_bare (cls : Cls) (xs : List Val) (n : Nat) (c d : Val) (hx
     · decide
     · exact natStr_bare _ ch hc
 
+/-! ### every spelling of a path, at the string level
+
+`renderSp lead steps` (defined in `Proofs/XPathSpellings.lean`) is the text of a spelling: prefix
+none / `/` / `//` (`Lead`), each index step attached (`a[0]`, `[0][1]`) or written as a step of its
+own (`a/[0]`, `[0]/[1]`) (`StepSp.idx e sep`), each index as `i`, `-k`, `last()`, `last()-k` or `i+j`
+(`IdxSp`).  `stepsGet` is plain Python indexing along the steps (`xs[i]` with Python's treatment of
+negative `i`: `pyIndex`). -/
+
+/-- the integer an index spelling denotes is what `n0eval` computes from its text -/
+theorem C01_idx_spelling_eval (e : IdxSp) : n0eval e.text = .ok (.int e.val) := e.eval
+
+/-- **tokenisation of a spelling**: the prefix and the `][` / `]/[` choice do not change the tokens -/
+theorem C01_spelling_tokens (lead : Lead) (steps : List StepSp) (hp : PlainSteps steps) :
+    tokenize (renderSp lead steps) = toksOf steps :=
+  tokenize_renderSp lead steps hp
+
+/-- the tokens of a spelling spell the position Python indexing reaches -/
+theorem C01_spelling_spells (steps : List StepSp) (v c : Val) (hp : PlainSteps steps)
+    (hget : stepsGet v steps = some c) : ∃ p, Spells (toksOf steps) v p c ∧ getAt v p = some c := by
+  obtain ⟨p, hs⟩ := spells_steps steps v c hp hget
+  exact ⟨p, hs, hs.getAt⟩
+
+/-- **C01 (equivalent spellings, string level, dict root).**  Whatever spelling of a path is used
+(prefix none, `/` or `//`; `][` or `]/[`, `a[i]` or `a/[i]`; each index as `i`, `-k`, `last()`,
+`last()-k` or `i+j`), item access and `get` return the element plain Python indexing returns, and
+the tree is unchanged. -/
+theorem C01_spellings_string (cls : Cls) (kvs : List (Str × Val)) (lead : Lead) (steps : List StepSp)
+    (c d : Val) (hp : PlainSteps steps) (hne : steps ≠ [])
+    (hget : stepsGet (.dict cls kvs) steps = some c) (fuel : Nat) (hf : fuel ≥ 2 * steps.length) :
+    getItem fuel (.dict cls kvs) (renderSp lead steps) = (.dict cls kvs, .ok c) ∧
+    get fuel (.dict cls kvs) (renderSp lead steps) d = (.dict cls kvs, .ok c) :=
+  ⟨getCore_spelling_dict fuel cls kvs lead steps c _ true true hp hne hget hf,
+   getCore_spelling_dict fuel cls kvs lead steps c _ false true hp hne hget hf⟩
+
+/-- **C01 (equivalent spellings, string level, list root addressed with a leading index).** -/
+theorem C01_spellings_string_list (cls : Cls) (xs : List Val) (lead : Lead) (steps : List StepSp)
+    (c d : Val) (hp : PlainSteps steps) (hne : steps ≠ [])
+    (hget : stepsGet (.list cls xs) steps = some c) (fuel : Nat) (hf : fuel ≥ 2 * steps.length) :
+    getItem fuel (.list cls xs) (renderSp lead steps) = (.list cls xs, .ok c) ∧
+    get fuel (.list cls xs) (renderSp lead steps) d = (.list cls xs, .ok c) :=
+  ⟨getCore_spelling_list fuel cls xs lead steps c _ true true hp hne hget hf,
+   getCore_spelling_list fuel cls xs lead steps c _ false true hp hne hget hf⟩
+
 /-! Non-vacuity: a concrete tree with nested lists, a list in a list, empty containers. -/
 def exTree : Val :=
   .dict .n0 [(['a'], .dict .plain [(['b'], .list .plain [.int 1, .list .n0 [.str ['x'], .none]]),
@@ -253,5 +297,23 @@ example : (getItem 20 exList ['-', '1']) = (exList, .ok (.int 5)) := by decide
 example : (XPath.get 20 exList ['l', 'a', 's', 't', '(', ')', '-', '1'] (.str ['D'])).2
     = .ok (.list .plain [.str ['x'], .list .n0 [.none, .bool false]]) := by decide
 example : (getItem 20 exList ['1', '+', '1']) = (exList, .ok (.int 5)) := by decide
+
+
+/-- spellings: `//a/b[last()]/[-2]`, `a/b/[0+1][last()-1]`, `/[1][0]` on the list root -/
+def exSteps1 : List StepSp := [.key ['a'], .key ['b'], .idx .last false, .idx (.neg 2) true]
+def exSteps2 : List StepSp := [.key ['a'], .key ['b'], .idx (.plus 0 1) true, .idx (.lastMinus 1) false]
+
+example : renderSp .two exSteps1 =
+    ['/', '/', 'a', '/', 'b', '[', 'l', 'a', 's', 't', '(', ')', ']', '/', '[', '-', '2', ']'] := by decide
+example : renderSp .rel exSteps2 =
+    ['a', '/', 'b', '/', '[', '0', '+', '1', ']', '[', 'l', 'a', 's', 't', '(', ')', '-', '1', ']'] := by decide
+example : toksOf exSteps1 = [['a'], ['b', '[', 'l', 'a', 's', 't', '(', ')', ']'], ['[', '-', '2', ']']] := by decide
+example : stepsGet exTree exSteps1 = some (.str ['x']) ∧ stepsGet exTree exSteps2 = some (.str ['x']) := by decide
+example : (getItem 20 exTree (renderSp .two exSteps1)) = (exTree, .ok (.str ['x'])) := by decide
+example : (getItem 20 exTree (renderSp .rel exSteps2)) = (exTree, .ok (.str ['x'])) := by decide
+example : renderSp .one [.idx (.lit 1) false, .idx (.lit 0) false] = ['/', '[', '1', ']', '[', '0', ']'] ∧
+    stepsGet exList [.idx (.lit 1) false, .idx (.lit 0) false] = some (.str ['x']) := by decide
+-- the relative one-key spelling goes through the plain dictionary lookup
+example : renderSp .rel [.key ['k']] = ['k'] ∧ (getItem 20 exTree ['k']) = (exTree, .ok (.bool true)) := by decide
 
 end N0.C01
